@@ -80,7 +80,7 @@ Qed.
 
 Lemma collect_ids : forall o id d, In (id, d) (collect_defs o) -> In id (ids o).
 Proof.
-  induction o as [n|i k items IH|i k|k|i k] using obj_ind2; intros id d H; cbn in *; try contradiction.
+  induction o as [n|i k items IH|i k|k|i k|w] using obj_ind2; intros id d H; cbn in *; try contradiction.
   destruct H as [E|H]; [inversion E; left; reflexivity|]. right.
   apply in_flat_map in H as [kv [Hkv H]]. apply in_flat_map. exists kv. split; [assumption|].
   rewrite Forall_forall in IH. exact (IH kv Hkv id d H).
@@ -141,7 +141,7 @@ Section Copy.
 
   Lemma srb_copy : forall o, copy_ok o.
   Proof.
-    induction o as [n|id k items IH|id k|k|id k] using obj_ind2; unfold copy_ok;
+    induction o as [n|id k items IH|id k|k|id k|w] using obj_ind2; unfold copy_ok;
       intros Hnd Hw Hs rt p ky m lg v m' lg' Hi Hm E.
     - cbn in E. inversion E; subst. split; [assumption|]. split; [reflexivity|]. intros ? ? ? [].
     - rewrite srb_node in E. rewrite (Hm id (or_introl eq_refl)) in E. cbv zeta in E.
@@ -181,6 +181,7 @@ Section Copy.
     - cbn [srb] in E. destruct (t_get m id) as [v0|] eqn:G; inversion E; subst.
       + split; [assumption|]. split; [exact (Hi _ _ G)|]. intros ? ? ? [].
       + split; [assumption|]. split; [reflexivity|]. intros ? ? ? [].
+    - cbn in E. inversion E; subst. split; [assumption|]. split; [reflexivity|]. intros ? ? ? [].
     - cbn in E. inversion E; subst. split; [assumption|]. split; [reflexivity|]. intros ? ? ? [].
     - cbn in E. inversion E; subst. split; [assumption|]. split; [reflexivity|]. intros ? ? ? [].
   Qed.
